@@ -117,7 +117,7 @@ CHECKS = {
         props=['C11', 'C08'], opts='props=0',
         quick=[mc(1, [1, 6], [], ['add_edge', 'add_face'], Modes='ModesDefault', BUSets='BUTwo', MaxList=3),
                mc(1, [1, 5], [], ['add_cell'], Modes='ModesDefault', BUSets='BUTwo', MaxList=4),
-               mc(2, [2, 4, 6], DEL, ['add_edge', 'add_cell_closed', 'add_face_v'], Modes='ModesTwo', MaxList=3)],
+               mc(2, [2, 6], DEL, ['add_edge', 'add_cell_closed', 'add_face_v'], Modes='ModesTwo', BUSets='BUTwo', MaxList=3)],
         thorough=[mc(2, [1, 6], DEL, ['add_edge', 'add_face'], Modes='ModesTwo', BUSets='BUTwo', MaxList=3),
                   mc(2, [1, 5, 2], ['delete_cell'], ['add_cell'], Modes='ModesDefault', BUSets='BUTwo', MaxList=4),
                   mc(3, [2, 4, 6], DEL + GC, ['add_edge', 'add_cell_closed', 'add_face_v'], MaxList=3)],
@@ -269,7 +269,7 @@ def run_tests_traced(cfg, work, cov, failures, crashes, drifts):
     cov['drift_lines'] += ndr
 
 
-def run_check(prop, tier, seed, replay=None):
+def run_check(prop, tier, seed, replay=None, sim_only=False, sim_num=None):
     t0 = time.time()
     cfg = CHECKS[prop]
     variant = cfg.get('variant', 'plain')
@@ -291,7 +291,7 @@ def run_check(prop, tier, seed, replay=None):
         cov['states'] = cov['transitions'] = max(1, agg['checked'])
         cov['samples'].append(dict(replay=replay))
     else:
-        for n, mc in enumerate(cfg['quick'] + (cfg['thorough'] if tier == 'thorough' else [])):
+        for n, mc in enumerate([] if sim_only else cfg['quick'] + (cfg['thorough'] if tier == 'thorough' else [])):
             c = dict(mc); c.setdefault('Modes', 'ModesAll'); c.setdefault('BUSets', 'BUAll'); c['Emit'] = 'tree'
             cp = os.path.join(work, 'mc%d.cfg' % n)
             vlib.write_mc_cfg(cp, c)
@@ -320,15 +320,17 @@ def run_check(prop, tier, seed, replay=None):
             cov['traces_validated_against_impl'] += agg['checked']
             cov['impl_steps_executed'] += agg['lines']
             cov['drift_lines'] += agg['drift']
-        if prop == 'C08':
+        if prop == 'C08' and not sim_only:
             extra_c08(work, variant, cov, failures)
-        if tier == 'thorough' or prop in ('C01', 'C02'):
+        if not sim_only and (tier == 'thorough' or prop in ('C01', 'C02')):
             run_tests_traced(cfg, work, cov, failures, crashes, drifts)
         sim = cfg.get('sim')
         if sim:
             ti = 0 if tier == 'quick' else 1
             num = sim.get('num', (40, 400))[ti]
             depth = sim.get('depth', (30, 60))[ti]
+            if sim_num:
+                num = sim_num
             c = dict(Depth=depth + 1, SeedIds=ALLSEEDS, HistOps=sorted(set(sim['ops'])), TargetOps=[], Emit='sim',
                      Modes='ModesAll', BUSets=sim.get('BUSets', 'BUAll'))
             cp = os.path.join(work, 'sim.cfg')
@@ -393,10 +395,12 @@ def main():
     ap.add_argument('prop')
     ap.add_argument('--tier', default=os.environ.get('VERIF_TIER', 'quick'))
     ap.add_argument('--replay')
+    ap.add_argument('--sim-only', action='store_true')
+    ap.add_argument('--sim-num', type=int)
     a = ap.parse_args()
     seed = int(os.environ.get('VERIF_SEED', '1'))
     try:
-        sys.exit(run_check(a.prop, a.tier, seed, a.replay))
+        sys.exit(run_check(a.prop, a.tier, seed, a.replay, a.sim_only, a.sim_num))
     except MachineryError as e:
         print('MACHINERY-ERROR: %s' % e, file=sys.stderr)
         sys.exit(2)
